@@ -86,6 +86,8 @@ pub fn run(ctx: &Ctx) -> Report {
     let f = families();
     let mut big: Vec<(&'static str, u64, u64, u64)> = vec![];
     for (fam, idx) in &progs { if *fam == "BASE" || *fam == "LAB" { for g in 1..7u64 { for p in [0u64, 3887, 5 * 324 + 17] { big.push((fam, *idx, p, 1 + 160 * g)); } } } }
+    // comment texts outside ASCII (two-, three- and four-byte characters, at the start / end of the comment, next to TABs), on every comment-carrying line style
+    for (fam, idx) in &progs { if *fam == "BASE" || *fam == "LAB" || *fam == "UNI" { for e in 0..8u64 { for p in [324 * 4 + 1, 324 * 8 + 1, 3887, 324 * 5 + 17, 324 * 9 + 100] { big.push((fam, *idx, p, 1 + 160 * (7 + e))); } } } }
     for i in 0..f.len("BIG") { for (p, sec) in [(0u64, 1u64), (0, 1 + 160), (3887, 1 + 160 * 4)] { big.push(("BIG", i, p, sec)); } }
     let r = sweep(ctx, big.len() as u64, 4, |k, acc| {
         let (fam, idx, p, s) = big[k as usize];
